@@ -1,0 +1,32 @@
+//go:build verif
+
+package set
+
+import "sort"
+
+// VerifBuckets exposes the bucket layout of a set for the verification
+// harness in /verif (build tag "verif" only; never compiled otherwise).
+// Buckets are returned in ascending bucket-id order, members in stored order.
+func (s Set[T]) VerifBuckets() (ids []int, buckets [][]T) {
+	ids = make([]int, 0, len(s.vals))
+	for id := range s.vals {
+		ids = append(ids, id)
+	}
+	sort.Ints(ids)
+	buckets = make([][]T, len(ids))
+	for i, id := range ids {
+		buckets[i] = s.vals[id]
+	}
+	return ids, buckets
+}
+
+// VerifSpareCapacity reports how many buckets have capacity beyond their length.
+func (s Set[T]) VerifSpareCapacity() int {
+	n := 0
+	for _, b := range s.vals {
+		if cap(b) > len(b) {
+			n++
+		}
+	}
+	return n
+}
